@@ -17,6 +17,7 @@ def settle : Svc → Svc
   | .applyFn s kind k => .applyFn (settle s) kind k
   | .wrap w s => .wrap w (settle s)
   | .mw s t => .mw (settle s) t
+  | .reenter w k s => .reenter w k (settle s)
 
 theorem settle_pollReady (s : Svc) (w : Nat) : settle (pollReady s w).1 = settle s := by
   fun_induction pollReady s w <;> simp_all [settle]
@@ -48,6 +49,7 @@ theorem settle_of_ready (s : Svc) (h : rdyDen s = (0, .ok)) : settle s = s := by
   | applyFn s kind k ih => simp [rdyDen] at h; simp [settle, ih h]
   | wrap w s ih => simp [rdyDen] at h; simp [settle, ih h]
   | mw s t ih => simp [rdyDen] at h; simp [settle, ih h]
+  | reenter w k s ih => simp [rdyDen] at h; simp [settle, ih h]
 
 /-- events that are neither a poll-after-completion nor a `new_service` call -/
 def quiet : Evt → Bool
@@ -103,6 +105,7 @@ def facDen : Fac → Nat → Nat × IRes
   | .unitConfig a, _ => facDen a 0
   | .boxed a, cfg => mapOk (.wrap .boxed) (facDen a cfg)
   | .rc a, cfg => facDen a cfg
+  | .reenter _ a, cfg => facDen a (reReq cfg)
 
 def sideDen (iDen : IFut → Nat × IRes) : Option Svc → IFut → Nat × IRes
   | some s, _ => (0, .ok s)
@@ -159,6 +162,7 @@ theorem newService_spec (f : Fac) (cfg : Nat) :
   | unitConfig a ih => simp [newService, facDen, ih]
   | boxed a ih => simp [newService, iDen, facDen, iFresh, ih]
   | rc a ih => simp [newService, facDen, ih]
+  | reenter k a ih => simp [newService, facDen, ih]
 
 /-- specification of one poll of a fresh init future -/
 def ISpecOf (den : Nat × IRes) (out : IFut × Option IRes × List Evt) : Prop :=
@@ -373,6 +377,7 @@ def facLeaves : Fac → Nat → List (Nat × Nat)
   | .unitConfig a, _ => facLeaves a 0
   | .boxed a, cfg => facLeaves a cfg
   | .rc a, cfg => facLeaves a cfg
+  | .reenter _ a, cfg => facLeaves a (reReq cfg)
 
 theorem newService_news (f : Fac) (cfg : Nat) : newEvts (newService f cfg).2 = facLeaves f cfg := by
   induction f generalizing cfg with
@@ -390,5 +395,8 @@ theorem newService_news (f : Fac) (cfg : Nat) : newEvts (newService f cfg).2 = f
   | unitConfig a ih => simp [newService, facLeaves, ih]
   | boxed a ih => simp [newService, facLeaves, ih]
   | rc a ih => simp [newService, facLeaves, ih]
+  | reenter k a ih =>
+    simp only [newService, facLeaves, newEvts_append, ih]
+    simp only [freEvts]; split <;> simp [newEvts]
 
 end ActixNet.Service
